@@ -172,9 +172,9 @@ type initStore struct {
 
 type globalImage struct {
 	ok       bool
-	readOnly bool // nothing outside the initialiser writes the variable
-	whole  *initVal // the global is assigned as a whole (scalar constant or slice literal)
-	stores []initStore
+	readOnly bool     // nothing outside the initialiser writes the variable
+	whole    *initVal // the global is assigned as a whole (scalar constant or slice literal)
+	stores   []initStore
 }
 
 func initPath(addr ssa.Value, root ssa.Value) ([]string, bool) {
